@@ -25,9 +25,10 @@ RULE = ("API level (virtual clock): real Throttle / StreamThrottle / ThrottleStr
         "when B has none.  distinct = distinct traces/configurations; "
         "non-trivial = at least one positive limit applies.")
 RULE += ("  " + 'Also (round 6): 8-20 transfers of about one block each, one after the other in one session, at every level and in both directions: the total duration has the lower bound (bytes - one block per stream in flight) / L.')
+RULE += ("  " + 'Also (round 7): a session that sends USER for its own account again before each of 8-14 one-block transfers, with and without waiting for replies (user and user-connection level, both directions, with and without password): lower bound on the total duration.')
 ASSUMPTIONS = ["virtual time of the simulated loop; eps = half a byte per reset fold plus float slack",
                "the bound is cumulative since the first limited I/O (an idle period earns credit), as the statement says"]
-REQUIRED_MONITORS = ["bound_checks", "delay_checks", "unlimited_ops", "e2e_bound_checks", "e2e_duration", "relogin_duration", "relogin_shared"]
+REQUIRED_MONITORS = ["bound_checks", "delay_checks", "unlimited_ops", "e2e_bound_checks", "e2e_duration", "relogin_duration", "relogin_shared", "relogin_repeat"]
 ANCHOR_FUNCTIONS = ['common.py:Throttle.wait', 'common.py:Throttle.append', 'common.py:ThrottleStreamIO.wait']
 EXHAUSTIVE = {"quick": False, "thorough": False}
 
@@ -402,6 +403,92 @@ async def relogin(net, hyg, plan):
         w.cleanup()
 
 
+async def relogin_repeat(net, hyg, plan):
+    """black box: a session that sends USER for its own account again before every transfer (with or without waiting for the
+    replies) stays under the per-connection / per-user limit of that account: k one-block transfers take what k blocks take"""
+    from ..rawpeer import RawPeer
+    loop = asyncio.get_running_loop()
+    mon = {"relogin_repeat": 0}
+    viol = []
+    L, block, k, d = plan["L"], plan["block"], plan["k"], plan["direction"]
+    key = ("write" if d == "download" else "read") + "_speed_limit" + ("_per_connection" if plan["level"] == "user_connection" else "")
+    users = [aioftp.User("slow", "pw" if plan.get("password") else None, base_path="/", **{key: L})]
+    w = W.World(net, tree={"/f.bin": payload_bytes(block, 2)}, users=users, block_size=block)
+    await w.start()
+    try:
+        p = RawPeer(net, 2121, name="repeat")
+        await p.connect()
+        login = ["USER slow"] + (["PASS pw"] if plan.get("password") else [])
+        for ln in login + ["TYPE I"]:
+            await p.cmd(ln)
+        r = await p.cmd("EPSV")
+        port = p.parse_epsv(r)
+        t0 = loop.time()
+        moved = 0
+        codes_seen = []
+        for j in range(k):
+            conn = await p.open_data(port)
+            cmd = "RETR /f.bin" if d == "download" else f"STOR /up{j}.bin"
+            if plan["pipelined"]:
+                p.send("\r\n".join(login + [cmd]))
+            else:
+                for ln in login:
+                    await p.cmd(ln, wait=120)
+                p.send(cmd)
+            dr, dw = conn
+            if d == "download":
+                got, st = await p.read_data(dr, wait=120)
+                moved += len(got)
+                dw.close()
+            else:
+                dw.write(payload_bytes(block, j))
+                await asyncio.wait_for(dw.drain(), 120)
+                dw.close()
+                got, st = await p.read_data(dr, wait=120)     # the server's end closes when it has taken everything
+                moved += block
+            if not plan["pipelined"]:
+                for _ in range(2):
+                    await p.read_reply(wait=120)
+            elif d == "upload":
+                # (the next upload's data connection is only taken once this one is done: wait for its completion reply)
+                while True:
+                    rr = await p.read_reply(wait=120)
+                    if rr in (None, "EOF"):
+                        break
+                    codes_seen.append(rr.code)
+                    if rr.code[0] in "245" and rr.code not in ("230", "200"):
+                        break
+        dur = loop.time() - t0
+        mon["relogin_repeat"] += 1
+        lower = (moved - 2 * block - L * 0.05) / L * 0.95
+        codes = list(codes_seen)
+        if plan["pipelined"]:
+            while True:
+                rr = await p.read_reply(wait=5)
+                if rr in (None, "EOF"):
+                    break
+                codes.append(rr.code)
+        if d == "upload":
+            tree = w.tree()
+            stored = sum(len(tree.get(f"/up{j}.bin", b"")) for j in range(k))
+            if stored != k * block:
+                moved = stored
+        if plan["pipelined"] and codes.count("226") != k:
+            viol.append({"key": "relogin-transfer-failed", "msg": f"{plan}: replies {codes}"})
+        elif moved < k * block:
+            viol.append({"key": "relogin-transfer-failed", "msg": f"{plan}: only {moved} of {k * block} bytes moved"})
+        elif dur < lower:
+            viol.append({"key": f"faster-than-limit-allows:relogin-repeat:{plan['level']}",
+                         "msg": f"{plan}: {moved} bytes in {k} transfers, each after another USER for the same account, moved in "
+                                f"{dur:.3f}s; {key}={L} needs at least {lower:.3f}s"})
+        p.cut("fin")
+        await w.stop()
+        return {"violations": viol, "monitors": mon, "sig": sig_of(plan), "nontrivial": True,
+                "sample": {"plan": plan, "duration_s": round(dur, 4), "bytes": moved}}
+    finally:
+        w.cleanup()
+
+
 async def relogin_shared(net, hyg, plan):
     """black box: a per-user limit bounds the sum over all sessions of that user, also after one of them has logged in again
     (as the same or as another user and back)"""
@@ -461,7 +548,7 @@ async def relogin_shared(net, hyg, plan):
 def run_case(case):
     out = {"violations": [], "monitors": {}, "sigs": []}
     for plan in case["plans"]:
-        fn = {"api": api_trace, "e2e": e2e, "relogin": relogin, "relogin_shared": relogin_shared}[plan["kind"]]
+        fn = {"api": api_trace, "e2e": e2e, "relogin": relogin, "relogin_shared": relogin_shared, "relogin_repeat": relogin_repeat}[plan["kind"]]
 
         async def main(net, hyg, plan=plan, fn=fn):
             return await fn(net, hyg, plan)
@@ -554,6 +641,12 @@ def gen_cases(tier, seed):
         for d in ("download", "upload"):
             rel.append({"kind": "relogin_shared", "seed": seed, "sessions": n, "relogins": [], "via": [], "churn": churn, "direction": d,
                         "L": rng.choice([30000, 40000]), "size": rng.choice([60000, 90000]), "pcmd": rng.choice(["pasv", "epsv"])})
+    for level in ("user_connection", "user"):
+        for d in ("download", "upload"):
+            for pipelined in (True, False):
+                for password in ((False,) if tier == "quick" else (False, True)):
+                    rel.append({"kind": "relogin_repeat", "seed": seed, "level": level, "direction": d, "pipelined": pipelined, "password": password,
+                                "L": rng.choice([8192, 16384]), "block": rng.choice([4096, 8192]), "k": rng.choice([8, 10, 14])})
     per = 40
     api = [p for p in plans if p["kind"] == "api"]
     ee = [p for p in plans if p["kind"] == "e2e"]
